@@ -36,7 +36,7 @@ CONSTANTS
 CHECK_DEADLOCK FALSE
 """
 CHECKS = ("INVARIANTS TypeOK P_C02_StatusMatchesCause P_C02_RoutingOutcome P_C02_NoTruncation P_C02_Budget "
-          "P_C02_NoHang P_C02_HealthyServed P_C02_AnsweredUnlessStarted P_C02_SiblingServed\n"
+          "P_C02_NoHang P_C02_HealthyServed P_C02_AnsweredUnlessStarted P_C02_SiblingServed P_C02_CleanServed\n"
           "PROPERTIES P_C02_OneAnswer P_C02_OnceStarted P_C02_Isolation")
 
 # deviation switch -> what it models (defects found by this check and fixed in /repo; kept as spec mutants)
@@ -44,7 +44,27 @@ SELF_TEST_DEVIATIONS = {
     "DefaultAfterHead": "a default answer written after the response head was forwarded (two answers)",
     "KeepAliveAfterCloseDelimited": "an unframed (close-delimited) body relayed to an HTTP/1 client on a connection that is kept alive",
     "NoAnswerOnTimeout": "a backend timeout before any response aborts the request without the 504",
+    # classes of the coverage holes C02-22 / C02-12 and of cross findings 7, 8
+    "GoawayKillsNamed": "a graceful GOAWAY of an h2c backend tears down the stream it names as being processed (off-by-one on last_stream_id)",
+    "BackoffNotReset": "an established backend connection does not clear the back-off window: a backend that just served a request is unavailable",
+    "LengthBodyCutByCloseCompletes": "Connection: close on a response with a Content-Length makes the backend's early close the end of the body (truncated body presented as complete)",
+    "InterimSwallowsFinal": "the final response that arrives in one segment with a 1xx interim response is thrown away with it (103, then 504)",
+    "InterimOnH2BackendAborts": "the final HEADERS of an h2c backend that follow a 1xx HEADERS abort the stream",
+    "GoawayRefusedDropped": "a request refused by the backend's GOAWAY (above last_stream_id) after it was written is terminated without any answer",
 }
+# the instance on which each deviation is refuted (default: the single-request instance)
+SELF_TEST_INSTANCE = {"BackoffNotReset": (3, "CoreFramings", "NoSiblings", "RecoveryFaults")}
+# open finding (deviation) -> how its behaviour shows in a replayed scenario (reporting only: the verdict comes from the
+# admitted sets, which the generator computes with the open deviations switched on)
+def explained_by(scn, outs):
+    for r, o in zip(scn["reqs"], outs):
+        if r.get("interim", "none") != "none" and scn["back"] == "h1" and o[0] == "504":
+            return "InterimSwallowsFinal"
+        if r.get("interim", "none") != "none" and scn["back"] == "h2" and o == ["none", "abort"]:
+            return "InterimOnH2BackendAborts"
+    if any(r["fault"] == "goaway" for r in scn["reqs"]) and ["none", "abort"] in outs:
+        return "GoawayRefusedDropped"
+    return None
 
 
 def tla_set(xs):
@@ -107,7 +127,9 @@ def concretise(e, sid, k):
         if at == "between":
             between = True
         framing = r["framing"]
-        rq = {"route": route, "framing": framing, "body": body, "fault": fault, "at": at, "k": kk}
+        rq = {"route": route, "framing": framing, "body": body, "fault": fault, "at": at, "k": kk,
+              "interim": r.get("interim", "none"), "lsid": r.get("lsid", "na"), "split": r.get("pace") == "split",
+              "gap_ms": 2300 if r.get("gap") == "long" else 0}
         if off is not None:
             rq["off"] = off
         reqs.append(rq)
@@ -120,9 +142,9 @@ def concretise(e, sid, k):
 
 
 def stratum(e):
-    p = [r for r in e["reqs"] if r["route"] == "a" and (r["fault"] != "none" or r["pace"] == "drip")]
+    p = [r for r in e["reqs"] if r["route"] == "a" and (r["fault"] != "none" or r["pace"] == "drip" or r.get("interim", "none") != "none")]
     s = [r for r in e["reqs"] if r not in p[:1]]
-    pf = (p[0]["fault"], p[0]["at"], p[0]["pace"]) if p else ("-", "-", "-")
+    pf = (p[0]["fault"], p[0]["at"], p[0]["pace"], p[0].get("lsid"), p[0].get("interim")) if p else ("-", "-", "-")
     sk = s[0]["route"] + s[0]["pace"] if s else "-"
     return (e["front"], e["back"], e["mode"], e["timing"], pf, sk)
 
@@ -142,6 +164,7 @@ def run(tier, replay=None):
         inst.append(("mc2.cfg", 2, "AllFramings", "AllSiblings", "AllFaults"))
     else:
         inst.append(("mc2.cfg", 2, "CoreFramings", "CoreSiblings", "CoreFaults"))
+    inst.append(("mc3.cfg", 3, "CoreFramings", "NoSiblings", "RecoveryFaults"))
     for name, n, fr, sb, fl in inst:
         tm = "BothTimings"
         r = vlib.tlc("MC_HttpExchange", write_cfg(wd, name, n, fr, sb, fl, [], False, tm), PID, workers=workers,
@@ -151,7 +174,8 @@ def run(tier, replay=None):
             rep.violation("spec:" + r["violated"], "the specification itself violates %s" % r["violated"], r["out"])
     # ---- 2. the formulas can fail: every deviation switch breaks the property in the model ------
     for d in sorted(set(SELF_TEST_DEVIATIONS) | set(devs)):
-        rd = vlib.tlc("MC_HttpExchange", write_cfg(wd, "mc_dev.cfg", 1, "AllFramings", "AllSiblings", "AllFaults", [d], False),
+        n_, fr_, sb_, fl_ = SELF_TEST_INSTANCE.get(d, (1, "AllFramings", "AllSiblings", "AllFaults"))
+        rd = vlib.tlc("MC_HttpExchange", write_cfg(wd, "mc_dev.cfg", n_, fr_, sb_, fl_, [d], False),
                       PID, workers=workers, timeout=600)
         rep.add_tlc(rd)
         if not rd["violated"]:
@@ -185,6 +209,7 @@ def run(tier, replay=None):
         gens = [("gen1.cfg", 1, "AllFramings", "AllSiblings", "AllFaults")]
         gens.append(("gen2.cfg", 2, "AllFramings" if thorough else "CoreFramings",
                      "AllSiblings" if thorough else "CoreSiblings", "AllFaults" if thorough else "CoreFaults"))
+        gens.append(("gen3.cfg", 3, "CoreFramings", "NoSiblings", "RecoveryFaults"))
         for name, n, fr, sb, fl in gens:
             tm = "BothTimings"
             g = vlib.tlc("MC_HttpExchange", write_cfg(wd, name, n, fr, sb, fl, devs, True, tm), PID, workers=workers,
@@ -196,8 +221,8 @@ def run(tier, replay=None):
         n_abstract = len(abstract)
         if not abstract:
             raise vlib.ToolError("the generator produced no scenario")
-        single = [e for e in abstract if len(e["reqs"]) == 1]
-        pairs = [e for e in abstract if len(e["reqs"]) > 1]
+        single = [e for e in abstract if len(e["reqs"]) != 2]     # single requests and the recovery triples: all of them
+        pairs = [e for e in abstract if len(e["reqs"]) == 2]
         chosen = []
         if thorough:
             for e in abstract:
@@ -296,6 +321,17 @@ def run(tier, replay=None):
         rep.violation(v["class"], desc, v, name="scn_%s_%s.json" % (sc.get("id", "x"), re.sub(r"[^A-Za-z0-9]+", "_", v["class"])[:40]))
     rep.cov["evaluations"] += summ["requests"]
     classes = set()
+    if not replay:
+        scn_by_id = {}
+        for line in open(scn_path):
+            x = json.loads(line)
+            scn_by_id[x["id"]] = x
+        for o in results:
+            x = scn_by_id.get(o.get("id"))
+            d = explained_by(x, o.get("outcome") or []) if x else None
+            for e in rep.findings:
+                if d and e.get("status") == "open" and e.get("deviation") == d:
+                    rep.known_finding_seen(e["id"])
     for o in results:
         classes.add(json.dumps([o.get("sig"), o.get("outcome")]))
     rep.cov["traces_validated_against_impl"] += len(results)
